@@ -30,13 +30,13 @@ RULE = (
   'ops executed on a FrozenDict / struct instance; distinct = distinct event-log digest.'
 )
 STEP_UNIT = 'API operations and foreign mutations'
-COMPONENTS = {'real': ['flax/core/frozen_dict.py (all of it)', 'flax/struct.py (dataclass, PyTreeNode, field)', 'jax pytree registry / jax.jit trace cache'], 'stub': []}
+COMPONENTS = {'real': ['a second real interpreter per worker with another PYTHONHASHSEED (pickle peer)', 'flax/core/frozen_dict.py (all of it)', 'flax/struct.py (dataclass, PyTreeNode, field)', 'jax pytree registry / jax.jit trace cache'], 'stub': []}
 ASSUMPTIONS = [
   'lists and arrays stored as leaves are shared by design (only nested *dicts* are promised to be unshared); the harness never mutates them',
   'the raw result of FrozenDict.tree_flatten_with_keys (an internal pytree-protocol method) is not mutated; flattening goes through jax.tree_util',
   'hash checks only where every leaf is hashable',
 ]
-PROBES = ['mutation_of_source_after_freeze', 'mutation_of_unfreeze_result', 'mutation_of_copy_argument', 'hash_checked', 'order_variant', 'pickle_roundtrip', 'struct_runs', 'retrace_on_static_change', 'cache_hit_on_dynamic_change', 'nested_frozen_in_source', 'struct_shared_metadata', 'hash_unhashable_raises']
+PROBES = ['mutation_of_source_after_freeze', 'mutation_of_unfreeze_result', 'mutation_of_copy_argument', 'hash_checked', 'order_variant', 'pickle_roundtrip', 'struct_runs', 'retrace_on_static_change', 'cache_hit_on_dynamic_change', 'nested_frozen_in_source', 'struct_shared_metadata', 'hash_unhashable_raises', 'pickle_to_peer_interpreter']
 
 
 def setup_worker(w, tier):
@@ -58,6 +58,71 @@ def setup_worker(w, tier):
 
 
 KEYS = ['a', 'b', 'c', 'params', 'k1', 'z', 'batch_stats', 'w']
+
+# ---- a peer interpreter with a different string-hash salt: pickles travel to it and back ---------------------------
+PEER = [None]
+PEER_HASHSEED = '4242'
+PEER_CODE = r'''
+import os, sys, pickle, struct
+out = os.fdopen(os.dup(1), 'wb')
+os.dup2(2, 1)  # stray prints of imported libraries must not corrupt the protocol stream
+sys.path.insert(0, sys.argv[1])
+from sim.props import c15
+c15.setup_worker(0, 'peer')
+from flax.core.frozen_dict import FrozenDict, freeze
+inp = sys.stdin.buffer
+while True:
+  h = inp.read(4)
+  if len(h) < 4:
+    break
+  data = inp.read(struct.unpack('<I', h)[0])
+  try:
+    obj, plain_src, hashable = pickle.loads(data)
+    fresh = freeze(plain_src)
+    r = dict(type=type(obj).__name__, plain_eq=c15.plain(obj) == c15.plain(fresh))
+    if hashable:
+      r.update(eq=bool(obj == fresh), hash_eq=hash(obj) == hash(fresh), lookup=obj in {fresh: 1} and fresh in {obj: 1})
+    r['back'] = pickle.dumps(obj)
+  except BaseException as e:
+    r = dict(error=type(e).__name__ + ': ' + str(e)[:300])
+  b = pickle.dumps(r)
+  out.write(struct.pack('<I', len(b)) + b)
+  out.flush()
+'''
+
+
+def peer_roundtrip(fd, plain_src, hashable):
+  import os
+  import struct as _st
+  import subprocess
+  import sys
+
+  if PEER[0] is None or PEER[0].poll() is not None:
+    env = dict(os.environ, PYTHONHASHSEED=PEER_HASHSEED)
+    root = os.path.dirname(os.path.dirname(os.path.dirname(os.path.abspath(__file__))))
+    PEER[0] = subprocess.Popen([sys.executable, '-c', PEER_CODE, root], stdin=subprocess.PIPE, stdout=subprocess.PIPE, stderr=subprocess.DEVNULL, env=env)
+  p = PEER[0]
+  b = pickle.dumps((fd, plain_src, hashable))
+  try:
+    p.stdin.write(_st.pack('<I', len(b)) + b)
+    p.stdin.flush()
+    h = p.stdout.read(4)
+    if len(h) < 4:
+      raise kernel.HarnessError('peer interpreter died')
+    return pickle.loads(p.stdout.read(_st.unpack('<I', h)[0]))
+  except (BrokenPipeError, OSError) as e:
+    raise kernel.HarnessError(f'peer interpreter: {e!r}')
+
+
+def teardown_worker():
+  p = PEER[0]
+  if p is not None and p.poll() is None:
+    try:
+      p.stdin.close()
+      p.wait(timeout=5)
+    except Exception:  # noqa: BLE001
+      p.kill()
+  PEER[0] = None
 
 
 def gen_tree(g, depth, hashable):
@@ -110,6 +175,10 @@ def generate(rs, tier):
       ops.append(dict(op='iterate', fd=a, how=g.choice(['items', 'values', 'keys', 'iter'])))
     elif r < 0.67:
       ops.append(dict(op='pickle', fd=a))
+      if g.random() < 0.35:
+        # the pickle travels to another interpreter (different string-hash salt) and back
+        ops[-1]['peer'] = True
+        ops[-1]['warm'] = g.random() < 0.6
     elif r < 0.75:
       ops.append(dict(op='pytree', fd=a, how=g.choice(['flatten', 'tree_map', 'leaves_order', 'with_path'])))
     elif r < 0.79:
@@ -364,6 +433,23 @@ class FWorld:
       res.probe('pickle_roundtrip')
       self.track(r, 'pickle')
       self.api_ops += 1
+      if op.get('peer'):
+        if self.hashable and op.get('warm'):
+          hash(fd)
+        ans = peer_roundtrip(fd, _plain_tree(fd), self.hashable)
+        if 'error' in ans:
+          raise Violation('pickle-roundtrip', f'op {oi}: unpickling in another interpreter failed: {ans["error"]}')
+        if ans['type'] != 'FrozenDict' or not ans['plain_eq']:
+          raise Violation('pickle-roundtrip', f'op {oi}: unpickled in another interpreter the value is a {ans["type"]}, equal to the original contents: {ans["plain_eq"]}')
+        if self.hashable and not (ans['eq'] and ans['hash_eq'] and ans['lookup']):
+          raise Violation('pickle-roundtrip', f'op {oi}: unpickled in another interpreter (other hash salt) the FrozenDict vs a freshly built equal one: == {ans["eq"]}, same hash {ans["hash_eq"]}, found in a dict keyed by the other {ans["lookup"]}')
+        back = pickle.loads(ans['back'])
+        if not isinstance(back, FrozenDict) or plain(back) != plain(fd):
+          raise Violation('pickle-roundtrip', f'op {oi}: the FrozenDict that came back from the other interpreter is not equal to the original')
+        if self.hashable and not (back == fd and hash(back) == hash(fd) and back in {fd: 1}):
+          raise Violation('pickle-roundtrip', f'op {oi}: the FrozenDict that came back from the other interpreter compares {back == fd}, same hash {hash(back) == hash(fd)}')
+        res.probe('pickle_to_peer_interpreter')
+        self.track(back, 'pickle-peer')
     elif k == 'pytree':
       fd = self.pick_fd(op['fd'])
       how = op['how']
